@@ -11,3 +11,15 @@ func TestMain(m *testing.M) { hk.Main(m, "C02") }
 func TestS2(t *testing.T) {
 	hk.RunSub(t, hk.Sub[Plan]{Name: "s2/schedules", Quick: 3000, Thorough: 30000, Gen: Gen, Run: Run, Journal: true})
 }
+
+// TestS4 is the stress variant: real goroutines, watches opened while writes are in flight.
+func TestS4(t *testing.T) {
+	for _, impl := range []string{"inmem", "backed-mem", "bolt", "grpc"} {
+		q, th := 150, 1500
+		if impl == "grpc" || impl == "bolt" {
+			q, th = 40, 400
+		}
+
+		hk.RunSub(t, hk.Sub[SPlan]{Name: "s4/" + impl, Quick: q, Thorough: th, Gen: GenS(impl), Run: RunS})
+	}
+}
